@@ -23,7 +23,16 @@ void *vf_malloc (size_t n, const char *func);
 void vf_free (void *p, const char *func);
 int vf_clock_gettime (int clk, struct timespec *ts);
 long vf_syscall (long nr, ...);
+/* the rest of the allocator family goes through the same failure switch (an allocation failure is reported the way
+   each function reports it: NULL, or an error number with *memptr left untouched) */
+void *vf_calloc (size_t k, size_t n, const char *func);
+void *vf_aligned_alloc (size_t al, size_t n, const char *func);
+int vf_posix_memalign (void **pp, size_t al, size_t n, const char *func);
 #define malloc(n_) vf_malloc ((n_), __func__)
+#define calloc(k_, n_) vf_calloc ((k_), (n_), __func__)
+#define aligned_alloc(a_, n_) vf_aligned_alloc ((a_), (n_), __func__)
+#define memalign(a_, n_) vf_aligned_alloc ((a_), (n_), __func__)
+#define posix_memalign(pp_, a_, n_) vf_posix_memalign ((pp_), (a_), (n_), __func__)
 #define free(p_) vf_free ((p_), __func__)
 #define clock_gettime(c_, t_) vf_clock_gettime ((c_), (t_))
 #define syscall vf_syscall
